@@ -190,3 +190,59 @@ def moving_paths(spec):
             if any(moving(r) for r in rule.rules[:-1]):
                 k += 1
     return k
+
+
+class Injected(BaseException):
+    """Raised from inside a counting call to interrupt it (stands for Ctrl-C / a timeout)."""
+
+
+def interrupted_counting(spec, cls_desc, upto, rng, mech="C01:wrong-count-after-interrupted-counting"):
+    """Fault injection: on fresh copies of the specification (JSON reload: empty caches) a
+    counting call is interrupted at the k-th get_terms call of some rule; the same object is
+    then asked again for every size and must still enumerate the start class."""
+    import json
+
+    from comb_spec_searcher import CombinatorialSpecification
+    from comb_spec_searcher.strategies import rule as rule_mod
+
+    cx = base.ctx()
+    try:
+        blob = json.dumps(spec.to_jsonable())
+    except NotImplementedError:
+        return
+    orig = rule_mod.AbstractRule.get_terms
+    state = {"calls": 0, "at": None}
+
+    def get_terms(self, n):
+        state["calls"] += 1
+        if state["at"] is not None and state["calls"] == state["at"]:
+            raise Injected()
+        return orig(self, n)
+
+    rule_mod.AbstractRule.get_terms = get_terms
+    try:
+        fresh = CombinatorialSpecification.from_dict(json.loads(blob))
+        for n in range(upto + 1):
+            fresh.get_terms(n)
+        total = state["calls"]
+        for at in sorted({2, total, rng.randint(1, max(1, total)), rng.randint(1, max(1, total))}):
+            fresh = CombinatorialSpecification.from_dict(json.loads(blob))
+            state.update(calls=0, at=at)
+            try:
+                for n in range(upto + 1):
+                    fresh.get_terms(n)
+                continue
+            except Injected:
+                pass
+            finally:
+                state["at"] = None
+            cx.count("enum.countings_interrupted")
+            for n in range(upto + 1):
+                want = rw.norm(rw.terms(cls_desc, n))
+                got = rw.norm(fresh.get_terms(n))
+                cx.count("enum.sizes_compared_after_interruption")
+                if got != want:
+                    cx.violation(mech, f"counting interrupted at get_terms call #{at} of {total}, then size {n}: "
+                                       f"specification gives {dict(got)}, truth {dict(want)}", {"n": n, "at": at})
+    finally:
+        rule_mod.AbstractRule.get_terms = orig
